@@ -12,6 +12,8 @@ def jobs(tier):
     return [
         Job("norepeat-n5", M, "h_mro", dict(C10_N=5, C10_MAXB=3, C10_REPEATS=0), shards=31, timeout=t),
         Job("repeat-n4", M, "h_mro", dict(C10_N=4, C10_MAXB=3, C10_REPEATS=1), shards=13, timeout=t),
+        Job("n6-three-roots", M, "h_mro", dict(C10_N=6, C10_MAXB=2, C10_REPEATS=0, C10_ROOTS=3), shards=31, timeout=t,
+            note="six classes, the first three without bases, at most two bases each"),
     ]
   return [
       Job("norepeat-n5", M, "h_mro", dict(C10_N=5, C10_MAXB=3, C10_REPEATS=0), shards=31, timeout=t),
